@@ -308,4 +308,38 @@ CHECKS = {
         "assumptions": ["swaps are applied with a model of the shard controller's replaceInList",
                         "a round that does not end within the harness watchdog is inconclusive unless a panic was observed"],
     },
+    "C06": {
+        "level": "exploration",
+        "tests": [
+            {"pkg": "clusterx", "run": "^TestC06_Routes$", "quick": 200, "thorough": 6000, "shards": {"quick": 4, "thorough": 14}, "shrinktime": "20s"},
+        ],
+        "floors": {"snapshot_installed": 0.1, "rich_ops": 0.5},
+        "rule": "a 3-node cluster (real nodes, real coordinator) with a drawn snapshot chunk size (1 B..1 MiB) receives 4-25 generated rich "
+                "requests (puts/deletes/range deletes, index declarations, well-formed sequence puts, puts under sessions created and "
+                "closed through the real session manager) through its leader, while one follower streams the log live, may restart in "
+                "the middle, and a late joiner (stopped before the first write) installs a snapshot and replays the rest. Oracle: the "
+                "full decoded dump of every replica (all stored records incl. session, index, bookkeeping and notification records; "
+                "node-local term records excluded) equals the in-order application of the leader's log 0..c to an empty database, c "
+                "being that replica's own commit offset. Non-trivial: >=3 routes compared and >=1 session / sequence / index / range "
+                "operation. Crash-image replay as a further route is checked under C07.",
+        "assumptions": ["leadership does not move during a case (cases where it does are inconclusive)",
+                        "the reference fold uses the real ProcessWrite (semantic correctness of single operations is C12's job)"],
+    },
+    "C07": {
+        "level": "fault_enumeration",
+        "tests": [
+            {"pkg": "leaderx", "run": "^TestC07_CrashReplay$", "quick": 1200, "thorough": 30000},
+        ],
+        "floors": {"image_inside_run": 0.3},
+        "rule": "an RF=1 leader with 1-4 concurrent writers applies 2-14 generated rich requests; right after the k-th Pebble batch "
+                "commit (k drawn over all commits of the run; observed by wrapping WriteBatch.Commit) the harness takes a consistent "
+                "database image (KV.Snapshot = flush + Pebble checkpoint, i.e. the state a kill -9 can leave, because Pebble's own WAL "
+                "is disabled and memtables hold whole batches) and later a byte copy of the WAL directory. Oracle: c = commit offset "
+                "stored in the image <= last log offset; decoded dump(image) == in-order application of entries 0..c to an empty "
+                "database; a node restarted over (image, WAL copy) becomes leader, replays, and its dump equals the application of the "
+                "whole log with commit offset = last offset (version ids and modification counts make a skipped, repeated or "
+                "reordered entry visible). Non-trivial: the image lies strictly inside the run or >=2 writers were in flight.",
+        "assumptions": ["crash points are Pebble-commit granular; crash points inside a Pebble flush/compaction are Pebble's atomicity (trusted)",
+                        "WAL-level power-loss images are C10's domain"],
+    },
 }
